@@ -7,7 +7,8 @@ Import ListNotations.
 Open Scope N_scope.
 
 Inductive op := OBlock (k : block) (f : fault) | OReorg (b : N) | ORestart | OSnap | OReset
-  | ODrive (bs : list (block * fault)).   (* the blocks, all buffered, consumed by the real sync.EVMDriver; faults are transient *)
+  | ODrive (bs : list (block * fault))    (* the blocks, all buffered, consumed by the real sync.EVMDriver; faults are transient *)
+  | OPrestate (n x blk : N).             (* synthetic pre-state: an exit tree of n (>= 1) equal leaves x recorded at block blk (root row + path nodes only) *)
 
 (* result codes: 0 ok, 1 inconsistent, 2 fault, 3 constraint, 9 other *)
 Definition code_of (r : option perr) : N :=
@@ -101,6 +102,26 @@ Fixpoint drive (bs : list (block * fault)) (st : bstate) (ll : N -> option N) : 
     end
   end.
 
+(* synthetic pre-state for high leaf indices: the root row and the 32 path nodes of the last leaf of a tree holding n equal
+   leaves x (what a node that had synced n deposits would have on that path). full h = root of a full height-h subtree of x's;
+   part h = root of the height-h subtree containing leaf n-1. *)
+Fixpoint full_sub (h : nat) (x : N) : N := match h with O => x | S h' => let f := full_sub h' x in nodeN f f end.
+Fixpoint prestate_nodes (fuel h : nat) (last x cur : N) : N * list (N * (N * N)) :=
+  match fuel with
+  | O => (cur, [])
+  | S fuel' =>
+    let '(l, r) := if N.testbit last (N.of_nat h) then (full_sub h x, cur) else (cur, zh h) in
+    let p := nodeN l r in
+    let '(root, ns) := prestate_nodes fuel' (S h) last x p in (root, (p, (l, r)) :: ns)
+  end.
+Definition prestate_tree (n x blk : N) : tdb :=
+  let '(root, ns) := prestate_nodes HEIGHT 0 (n - 1) x x in
+  mkTdb [mkRoot root (n - 1) blk 0] (store_nodes (NM.empty _) ns).
+Definition prestate_state (n x blk : N) : bstate :=
+  mkBst (mkBdb [blk] [] [] [] [] (prestate_tree n x blk)) tmem_new false.
+(* the DepositContract after n deposits of x: branch[h] = full subtree at every level whose bit is set in n *)
+Definition prestate_contract (n x : N) : dcontract := mkDC n (map (fun h => full_sub h x) (seq 0 32)).
+
 (* run the operation list on the model; `lastleaf` tracks the last successfully processed leaf per dc *)
 Definition upd_leaf (m : N -> option N) (k v : N) : N -> option N := fun x => if x =? k then Some v else m x.
 Fixpoint run_ops (ops : list op) (st : bstate) (lastleaf : N -> option N) (obs : list snap) : list N * list snap :=
@@ -118,6 +139,7 @@ Fixpoint run_ops (ops : list op) (st : bstate) (lastleaf : N -> option N) (obs :
     | ORestart => let '(rs, ss) := run_ops rest (restart st) lastleaf obs in (0 :: rs, ss)
     | OReset => let '(rs, ss) := run_ops rest bstate_new (fun _ => None) obs in (0 :: rs, ss)
     | ODrive bs => let '(st', ll) := drive bs st lastleaf in let '(rs, ss) := run_ops rest st' ll obs in (0 :: rs, ss)
+    | OPrestate n x blk => let '(rs, ss) := run_ops rest (prestate_state n x blk) (fun _ => None) obs in (0 :: rs, ss)
     | OSnap =>
       match obs with
       | [] => let '(rs, ss) := run_ops rest st lastleaf [] in (0 :: rs, ss)
@@ -147,19 +169,26 @@ Definition bridges_of (ops : list op) : list bridge_ev :=
    itself reports (Bridge.Hash), and each such leaf = getLeafValue(fields, keccak(metadata)). Reorg-free histories. *)
 Fixpoint contract_roots (c : dcontract) (leaves : list N) : list N :=
   match leaves with [] => [] | l :: t => let c' := dc_deposit c l in dc_get_root c' :: contract_roots c' t end.
+Definition first_prestate (ops : list op) : option (N * N) :=
+  match ops with OPrestate n x _ :: _ => Some (n, x) | _ => None end.
 Definition spec_c01 (c : bcase) : bool :=
   let bs := bridges_of (c_ops c) in
-  let expected := contract_roots dc_init (c_leaves c) in
+  (* deposit count of the first leaf the node itself appended (n after a synthetic pre-state of n leaves) *)
+  let base : N := match first_prestate (c_ops c) with Some (n, _) => n | None => 0 end in
+  let expected := match first_prestate (c_ops c) with
+                  | Some (n, x) => contract_roots (prestate_contract n x) (c_leaves c)
+                  | None => contract_roots dc_init (c_leaves c) end in
   forallb (fun r => N.eqb r 0) (c_res c) &&
   list_eqb N.eqb (c_leaves c)
      (map (fun b => get_leaf_value (b_lt b) (b_onet b) (b_oaddr b) (b_dnet b) (b_daddr b) (b_amount b) (keccakN (b_meta b))) bs) &&
   forallb (fun s =>
-     forallb (fun o => match snd o with
-                       | Some (h, _, _) => match nth_error expected (N.to_nat (fst o)) with Some e => N.eqb h e | None => false end
-                       | None => Nat.leb (length expected) (N.to_nat (fst o)) end)
+     forallb (fun o => if fst o <? base then true else
+                       match snd o with
+                       | Some (h, _, _) => match nth_error expected (N.to_nat (fst o - base)) with Some e => N.eqb h e | None => false end
+                       | None => Nat.leb (length expected) (N.to_nat (fst o - base)) end)
              (sn_roots s) &&
      (* every deposit has a root *)
-     Nat.leb (length expected) (length (filter (fun o => match snd o with Some _ => true | None => false end) (sn_roots s))))
+     Nat.leb (length expected) (length (filter (fun o => negb (fst o <? base) && match snd o with Some _ => true | None => false end) (sn_roots s))))
    (c_snaps c) && negb (Nat.eqb (length (c_snaps c)) 0).
 
 (* C04 / C07: every query answers as on the reference node (twin run of the real code on the clean history) *)
